@@ -36,6 +36,10 @@ FIRST = {
     "C19-idle-histogram-not-listed": "exit 2 (Bucket stub had no is_empty) -> stub method; the listing contract of snapshot then fails",
     "C06-delete-by-hash-only": "reported at first (the weak from_hash stub made ANY predicate closure unprovable, also a correct one) -> since the closure rule (a failure in a function that gained a closure without a contract is undecided) it is exit 2: honest, the earlier report was right for the wrong reason",
     "C18-covered-check-uses-network-base": "exit 2 (IpNet stub lacked contains(&IpNet) / network()) -> stub widened and the contract restated over what the list ADMITS; the change still ends undecided because its test sits in a new closure (and a correct de-duplication would otherwise have been flagged: that false alarm is what the closure rule prevents)",
+    "C11-wake-only-when-queue-was-empty": "exit 0 (the enqueue side had no contract) -> state.verus.rs: ghost accounting 'an enqueue attempt is followed by a wake'",
+    "C11-first-description-sticks": "exit 0 (the metadata arm of run_transport had no boundary) -> arm lifted (R29) and contracted: latest unit / description win",
+    "C17-histogram-closure-captures-outer-key": "exit 0 (the register_* forwarders had no contract) -> forwarding contracts on the three methods (a one-line variant of the change is reported); the change itself introduces a helper with closures that is outside the template, so it now ends undecided",
+    "C17-allowlist-binary-search-unsorted": "same (the change swaps the HashSet for a Vec: the representation-dependent spec no longer type-checks)",
     "C17-new-span-merges-current-not-parent": "exit 2 expected, not run (Context stub lacked lookup_current) -> stub widened",
     "C17-filter-sees-empty-value": "exit 2 expected, not run (closure annotation keyed to parameter names) -> annotation by position",
 }
